@@ -154,7 +154,7 @@ pub open spec fn same_proc(r: Option<(&ProcedureDeclaration, usize)>, want: Opti
     ensures same_proc(r, proc_around(*gd, cursor.doc, cursor.index)), //# signature_help::the_procedure_whose_text_contains_the_cursor
 //@end
 //~assume the tokens are ordered by start offset and fewer than u32::MAX (lexer result; C06), the call statement's token range displaced by its offset lies inside the token vector (parser)
-//~not_decided the rendered label, parameter labels and documentation (Display/format!); which procedure contains the cursor (first closure of the handler: find_map with a match guard) and how the three closures are chained (`.await.map(..and_then..)`)
+//~not_decided the rendered label, parameter labels and documentation (Display/format!); how the three closures of the handler are chained (`.await.map(..and_then..)`, `find_map`)
 pub proof fn witness_sighelp() {
     let s: Seq<Token> = Seq::empty();
     assert(sorted_by_start(s));
